@@ -420,6 +420,10 @@ fn record(sink: &mut Sink, c: CaseIn, origin: &str) {
                 });
                 tags.push(if sorted { "outside_bound_sorted".into() } else { "outside_bound_unsorted".into() });
             }
+            // equal (calculated time, index): did the real heap pop them against the input order?
+            if t.windows(2).any(|p| p[0] > p[1] && c.msgs[p[0]].0 == c.msgs[p[1]].0 && calc_of(&c, &c.msgs[p[0]]) == calc_of(&c, &c.msgs[p[1]])) {
+                tags.push("tie_popped_against_input_order".into());
+            }
             let span = c.msgs.iter().map(|m| m.1).max().unwrap_or(0) - c.msgs.iter().map(|m| m.1).min().unwrap_or(0);
             if span > (c.w as u64 + 1) * US_PER_SEC {
                 tags.push("span_exceeds_window".into());
